@@ -3498,7 +3498,19 @@ class Inflate(Array):
 
     def _intbounds_impl(self):
         lower, upper = self.func._intbounds
-        return min(lower, 0), max(upper, 0)
+        # Entries of func that share a dof are added, so the bounds scale with
+        # the largest number of entries that can end up in the same dof.
+        if self.dofmap.ndim == 0:
+            multiplicity = 1
+        elif isinstance(self.dofmap, Constant):
+            multiplicity = int(numpy.unique(self.dofmap.value, return_counts=True)[1].max(initial=0))
+        else:
+            multiplicity = 1
+            for n in self.dofmap.shape:
+                multiplicity = multiplicity and n._intbounds[1] and multiplicity * n._intbounds[1]
+        # To prevent nans from multiplying zero with inf, a zero factor makes
+        # the product zero.
+        return min(lower and multiplicity and lower * multiplicity, 0), max(upper and multiplicity and upper * multiplicity, 0)
 
     def _argument_degree(self, argument):
         if argument not in self.dofmap.arguments and argument not in self.length.arguments:
